@@ -62,6 +62,12 @@ def gen(rng, tier):
         n = rng.choice([0, 1, 2, 3, 5, 10, 32, 40])
         links = ";".join("%s:%s" % (rng.choice("LR"), G.hx(G.imprint(rng))) for _ in range(n)) or "-"
         yield "cal %s %s" % (G.hx(G.imprint(rng)), links)
+        if n and i % 5 == 0:
+            # a left link of a registered algorithm this build cannot compute: the hasher has to be re-opened and cannot be
+            ls = [(rng.choice("LR"), G.imprint(rng)) for _ in range(n)]
+            k = rng.randrange(n)
+            ls[k] = ("L", G.imprint(rng, rng.choice([7, 8, 9, 10, 11])))
+            yield "cal %s %s" % (G.hx(G.imprint(rng)), ";".join("%s:%s" % (d, G.hx(b)) for d, b in ls))
     # 3. calendar time: all shapes up to a length x all publication times up to a bound
     maxlen, maxp = (7, 70) if not big else (10, 1024)
     for ln in range(0, maxlen + 1):
